@@ -11,6 +11,7 @@ import (
 	"fmt"
 	"math"
 	"os"
+	"time"
 
 	"github.com/dlclark/regexp2/v2/syntax"
 )
@@ -111,14 +112,14 @@ func init() {
 		enc.SetEscapeHTML(false)
 		cfg := cfgC01()
 		cfg.Letters = []int{'a', 'b', 'c', 'A', '\n', ' ', '1'}
-		cfg.MaxNodes = 9
+		cfg.MaxNodes = 7
 		exact := true
 		if *profile == "wide" {
 			cfg.Nullable, cfg.NestedRep, cfg.G = true, true, true
 			exact = false
 		}
 		g := &Gen{r: newRand(seedFromEnv(), *stream), c: cfg}
-		errs, changed := 0, 0
+		errs, changed, heavy := 0, 0, 0
 		for id := 1; id <= *n; id++ {
 			o := randOpts(g, "imsn", 0.15)
 			g.N = has(o, "n")
@@ -168,7 +169,7 @@ func init() {
 			}
 			walk(t)
 			for _, c := range []int{'a', 'b', '\n', '1', ' ', 'A'} {
-				if len(a) >= 4 {
+				if len(a) >= 3 {
 					break
 				}
 				if !seen[c] {
@@ -176,8 +177,34 @@ func init() {
 					a = append(a, c)
 				}
 			}
-			if len(a) > 4 {
-				a = a[:4]
+			if len(a) > 3 {
+				a = a[:3]
+			}
+			ml := *maxLen
+			// cost guard: the specification evaluates every string of the bounded language three times; patterns whose
+			// worst search over that language is expensive for the real engine are left to the relational leg of C05
+			if re, err := compile(text, optBits(o, "net", isRTL)); err == nil {
+				worst := time.Duration(0)
+				probe := []int{}
+				for i := 0; i < ml; i++ {
+					probe = append(probe, a[i%len(a)])
+				}
+				for _, c := range a {
+					in := []rune{}
+					for i := 0; i < ml; i++ {
+						in = append(in, rune(c))
+					}
+					if d := cheapest(func() { re.FindRunesMatch(in) }); d > worst {
+						worst = d
+					}
+				}
+				if d := cheapest(func() { re.FindRunesMatch(intsToRunes(probe)) }); d > worst {
+					worst = d
+				}
+				if worst > 25*time.Microsecond {
+					heavy++
+					continue
+				}
 			}
 			ion, e1 := exportTree(on.Root, a)
 			ioff, e2 := exportTree(off.Root, a)
@@ -188,9 +215,9 @@ func init() {
 			if on.Dump() != off.Dump() {
 				changed++
 			}
-			enc.Encode(TreeRec{ID: id, P: p, O: o, Dia: "net", RTL: isRTL, Text: text, Exact: exact, Alpha: a, MaxLen: *maxLen, On: ion, Off: ioff, OnDump: on.Dump()})
+			enc.Encode(TreeRec{ID: id, P: p, O: o, Dia: "net", RTL: isRTL, Text: text, Exact: exact, Alpha: a, MaxLen: ml, On: ion, Off: ioff, OnDump: on.Dump()})
 		}
-		fmt.Fprintf(os.Stderr, "record-tree: patterns=%d parse_errors=%d rewritten=%d\n", *n, errs, changed)
+		fmt.Fprintf(os.Stderr, "record-tree: patterns=%d parse_errors=%d rewritten=%d heavy_skipped=%d\n", *n, errs, changed, heavy)
 		return 0
 	}
 }
